@@ -298,7 +298,7 @@ CLAIM02 = dict(
          "tree) and histories that delete plz-out and move the tree A->B->A; every TLC-generated history is replayed against the real plz binary with "
          "CacheLayers.tla models the cache stack of cache.go (store to every layer, retrieve from the first hit and back-fill; directory-cache entries "
          "hard-linked with plz-out; unpacking over the previous outputs; eviction of the front layer) and its histories are replayed with the directory "
-         "cache in front of the command cache. Incremental.tla's histories run with "
+         "cache in front of the command cache and, alternately, in front of the repository's own HTTP cache server (tools/http_cache). Incremental.tla's histories run with "
          "one shared [cache] dir, with dircompress on and off, and (a sample, half of it histories with directory outputs) with the command cache (tar stream unpacked by readTar, shared with the HTTP cache) instead, and after every build the outputs are compared with a from-scratch build without cache.",
     note="Bounded as C01 (cache stack: one target chain, two versions, <=5 edit/evict/delete steps); the local directory cache and the command cache (the HTTP cache's transport: C13); trusted as C01.",
     technique="TLA+ spec Incremental.tla (cache variable) model-checked with TLC; generated histories replayed e2e with the real directory cache (compressed and uncompressed) and the real command cache")
